@@ -5,6 +5,7 @@ C.10.2 The array and tabular Environments
 
 import sys
 from plasTeX import Macro, Environment, Command, DimenCommand
+from plasTeX.Tokenizer import Other
 from plasTeX import sourceChildren, sourceArguments
 from typing import Optional
 
@@ -523,11 +524,15 @@ class Array(Environment):
         before = None
         leftborder = None
 
-        tex.pushToken(Array)
+        # Mark the end of the specification with a token of our own (the
+        # tokenizer writes the owner document and the context depth on
+        # every token it hands out; a class would keep them)
+        end = Other('')
+        tex.pushToken(end)
         tex.pushTokens(colspec)
 
         for tok in tex.itertokens():
-            if tok is Array:
+            if tok is end:
                 break
 
             if tok.isElementContentWhitespace:
